@@ -4,6 +4,7 @@ import json
 import shutil
 import tempfile
 import itertools
+import re
 
 import families
 from gen import header
@@ -97,6 +98,8 @@ def run(res, tier, br, model_ok=True, search=False):
                 # ---- oracle: the property itself
                 if vname != "paths-json":
                     oracle(res, seq, vname, vnames, outcomes, out, replay)
+                else:
+                    oracle_json(res, seq, vnames, outcomes, out, replay)
                 # ---- correspondence with the model (explicit paths only: order is defined)
                 if vname.startswith("paths") and model_ok:
                     files = []
@@ -137,6 +140,7 @@ def run(res, tier, br, model_ok=True, search=False):
                     first = first or (seq, vname, out["stdout"][:200], out["exit"], str(m)[:300])
             if nbad:
                 res.broken.append(f"correspondence cli: {nbad} disagreements, e.g. {first}")
+        many_files(res, rng, cls, tmp, [256] if tier == "quick" and not search else [255, 256, 257, 512])
         res.sample({"cli": {"classes": list(seqs[min(20, len(seqs) - 1)])}})
     finally:
         shutil.rmtree(tmp, ignore_errors=True)
@@ -178,9 +182,85 @@ def oracle(res, seq, vname, names, outcomes, out, replay):
         res.report("exit-status", f"{seq} ({vname}): exit {out['exit']} while verdicts are {[r['status'] for _, r in outcomes]}", replay)
 
 
+def oracle_json(res, seq, names, outcomes, out, replay):
+    """`-f json`: the verdict of a file is its "status"; it is "OK" iff none of the file's diagnostics has level Error"""
+    if any(r["outcome"] not in ("ok", "fatal") for nm, r in outcomes):
+        return
+    if any(r["outcome"] == "fatal" for nm, r in outcomes):
+        if out["exit"] == 0:
+            res.report("fatal:exit-zero", f"{seq} (json): a fatally unparsable file but exit status 0", replay)
+        return
+    try:
+        doc = json.loads(out["stdout"])
+        entries = doc["files"]
+    except Exception as e:
+        res.report("json:invalid", f"{seq}: the JSON report does not parse: {e}", replay)
+        return
+    if len(entries) != len(names):
+        res.report("verdicts", f"{seq} (json): {len(entries)} file entries for {len(names)} files", replay)
+        return
+    for (nm, r), e in zip(outcomes, entries):
+        has_err = any(x.get("level") == "Error" for x in e.get("errors", []))
+        ref_err = any(d[2] == "Error" for d in r["diags"])
+        if e.get("status") not in ("OK", "Error") or (e.get("status") == "Error") != has_err or has_err != ref_err:
+            res.report("verdict-vs-diagnostics", f"{nm} (json): status {e.get('status')!r} while Error-level diagnostics present={has_err}"
+                       f" (levels {[x.get('level') for x in e.get('errors', [])]})", replay)
+    all_ok = all(e.get("status") == "OK" for e in entries)
+    if (out["exit"] == 0) != all_ok:
+        res.report("exit-status", f"{seq} (json): exit {out['exit']} while statuses are {[e.get('status') for e in entries]}", replay)
+
+
+def many_files(res, rng, cls, tmp, counts):
+    """"independently of how many files there are": one real process over N erroneous files (plus one clean file)
+    must end with a non-zero status; the status is observed after the operating system has truncated it"""
+    from impl import run_cli
+    for n in counts:
+        d = os.path.join(tmp, f"many{n}")
+        os.makedirs(d)
+        text = rng.choice(cls["error"])
+        names = [f"e{k:03d}.c" for k in range(n)] + ["zclean.c"]
+        for nm in names[:-1]:
+            open(os.path.join(d, nm), "w").write(text)
+        open(os.path.join(d, names[-1]), "w").write(rng.choice(cls["clean"]))
+        out = run_cli(names, d, timeout=600)
+        res.count("cli-many", 1, files=n)
+        res.nontriv(("many", n))
+        replay = {"kind": "many", "n": n, "error_text": text, "clean_text": open(os.path.join(d, names[-1])).read()}
+        if out.get("hang") or out.get("exit") is None or "Traceback" in out.get("stderr", ""):
+            res.report("hang@main" if out.get("hang") else "crash:main", f"run over {n} files did not end with an exit status: {out.get('stderr','')[-200:]}", replay)
+            continue
+        nerr = len(re.findall(r"^\S+: Error!$", out["stdout"], re.M))
+        nok = len(re.findall(r"^\S+: OK!$", out["stdout"], re.M))
+        if nerr + nok != n + 1:
+            res.report("verdicts", f"{n + 1} files: {nerr} Error! and {nok} OK! verdict lines", replay)
+        if (out["exit"] == 0) != (nerr == 0):
+            res.report("exit-status", f"{n} erroneous files in one run: {nerr} `Error!` verdicts but exit status {out['exit']}", replay)
+        shutil.rmtree(d, ignore_errors=True)
+
+
+def replay_many(rp):
+    from impl import run_cli
+    d = tempfile.mkdtemp(prefix="verif_c04m_")
+    try:
+        names = [f"e{k:03d}.c" for k in range(rp["n"])] + ["zclean.c"]
+        for nm in names[:-1]:
+            open(os.path.join(d, nm), "w").write(rp["error_text"])
+        open(os.path.join(d, names[-1]), "w").write(rp["clean_text"])
+        out = run_cli(names, d, timeout=600)
+        nerr = len(re.findall(r"^\S+: Error!$", out["stdout"], re.M))
+        print(f"files   : {rp['n']} copies of an erroneous file + one clean file, explicit paths, one process")
+        print("verdicts:", nerr, "Error!")
+        print("exit    :", out["exit"])
+        return 1 if (out["exit"] == 0) != (nerr == 0) or out["exit"] is None else 0
+    finally:
+        shutil.rmtree(d, ignore_errors=True)
+
+
 def replay(rp):
     import core
     from impl import main_inprocess, pipeline
+    if rp.get("kind") == "many":
+        return replay_many(rp)
     if rp.get("kind") != "cli":
         print("replay names a broken obligation/correspondence:", rp.get("broken"))
         return 1
@@ -199,7 +279,10 @@ def replay(rp):
         print("exit    :", out["exit"], out.get("exc"))
         if out.get("exc") or out["exit"] is None:
             return 1
-        oracle(res, tuple(rp["classes"]), rp["variant"], names, outcomes, out, rp)
+        if rp["variant"] == "paths-json":
+            oracle_json(res, tuple(rp["classes"]), names, outcomes, out, rp)
+        else:
+            oracle(res, tuple(rp["classes"]), rp["variant"], names, outcomes, out, rp)
     finally:
         shutil.rmtree(d, ignore_errors=True)
     for v in res.violations:
